@@ -1132,7 +1132,7 @@ def register_facing(reg):
             chk("yaw_is_the_azimuth_of_the_line_of_sight_in_the_parent_frame", is_turns(yaw - (alpha - HALF_PI)))
             # geometric meaning (heading 0 = +Y, counter-clockwise): the horizontal line of sight is h * (-sin yaw, cos yaw),
             # i.e. after turning by yaw about the parent's Z axis the target is straight ahead
-            G.instance(eng, "A2.atan2_polar_form", h, r[1], r[0])
+            G.instance(eng, "A2.atan2_polar_form", r[1], r[0])
             G.instance(eng, "A2.sin_cos_quarter_shift", alpha)
             G.instance(eng, "A2.sin_cos_periodic", alpha - HALF_PI, turns)
             chk("horizontal_line_of_sight_points_along_heading_yaw_x", r[0] == -h * SIN(yaw))
@@ -1140,7 +1140,7 @@ def register_facing(reg):
             if directly:
                 pitch = rz(pd(vals, "pitch"))
                 rho = G.hyp_term(eng, [h, r[2]])
-                G.instance(eng, "A2.atan2_polar_form", rho, r[2], h)
+                G.instance(eng, "A2.atan2_polar_form", r[2], h)
                 chk("pitch_is_the_elevation_of_the_line_of_sight_in_the_parent_frame", pitch == ATAN2(r[2], h))
                 chk("line_of_sight_is_raised_by_pitch_horizontal_part", h == rho * COS(pitch))
                 chk("line_of_sight_is_raised_by_pitch_vertical_part", r[2] == rho * SIN(pitch))
@@ -1366,8 +1366,8 @@ def register_frames(reg):
             # geometric meaning: D further along the line of sight, i.e. |d| * (p' - X) = D * d
             D = off[1]
             rho = G.hyp_term(eng, [h, d[2]])
-            G.instance(eng, "A2.atan2_polar_form", h, d[1], d[0])
-            G.instance(eng, "A2.atan2_polar_form", rho, d[2], h)
+            G.instance(eng, "A2.atan2_polar_form", d[1], d[0])
+            G.instance(eng, "A2.atan2_polar_form", d[2], h)
             G.instance(eng, "A2.sin_cos_quarter_shift", alpha)
             chk("scalar_offset_is_along_the_line_of_sight_z", rho * (p2[2] - X[2]) == D * d[2])
             chk("scalar_offset_horizontal_part_has_length_D_cos_elevation_x", h * (p2[0] - X[0]) == (COS(phi) * D) * d[0])
@@ -1412,9 +1412,9 @@ def register_frames(reg):
                 want = np.array(X) + Rotation.from_euler("ZXY", [theta, phi, 0]).apply(np.array(off))
                 if ok == "scalar":
                     want = np.array(X) + off[1] * d / np.linalg.norm(d)
-                if not all(_close(a, b) for a, b in zip(val["position"], want)):
+                if "parentOrientation" not in clause and not all(_close(a, b) for a, b in zip(val["position"], want)):
                     return f"beyond {X} by {arg} from {Z}: position {val['position']}, expected {list(want)}"
-                if not val["parentOrientation"].approxEq(want_or):
+                if (clause == "*" or "parentOrientation" in clause) and not val["parentOrientation"].approxEq(want_or):
                     return f"beyond {X} by {arg} from a {fk} facing {e}: parentOrientation {val['parentOrientation']}, expected {want_or}"
         return None
 
